@@ -259,11 +259,15 @@ MEDDLY::saturation_set_mtrel<EOP, ATYPE>
     fire_ct = new ct_entry_type("satfire");
     sat_ct  = new ct_entry_type("saturate");
 
+    //
+    // A recFire result is saturated with respect to all events at or
+    // below its level, so that part of the relation is in the key too.
+    //
     if (store_levels) {
-        fire_ct->setFixed('I', resF, arg2F);
+        fire_ct->setFixed('I', resF, arg2F, arg2F);
         sat_ct->setFixed('I', resF, arg2F);
     } else {
-        fire_ct->setFixed(resF, arg2F);
+        fire_ct->setFixed(resF, arg2F, arg2F);
         sat_ct->setFixed(resF, arg2F);
     }
 
@@ -651,13 +655,16 @@ void MEDDLY::saturation_set_mtrel<EOP, ATYPE>::recFire(int L,
     // **************************************************************
     ct_vector key(fire_ct->getKeySize());
     ct_vector res(fire_ct->getResultSize());
+    const node_handle lower_events = top_at_or_below[L].getNode();
     if (store_levels) {
         key[0].setI(L);
         key[1].setN(A);
         key[2].setN(B);
+        key[3].setN(lower_events);
     } else {
         key[0].setN(A);
         key[1].setN(B);
+        key[2].setN(lower_events);
     }
 
     if (fire_ct->findCT(key, res)) {
